@@ -100,8 +100,8 @@ Qed.
 
 Theorem class_field_doc name f c : class_field name f = Ok c -> exists rest, c = doc_attr (f_doc f) ++ rest.
 Proof.
-  unfold class_field. intros H. apply bind_ok in H as [attrs [_ H]]. apply bind_ok in H as [r [_ H]].
-  apply bind_ok in H as [id [_ H]]. injection H as <-. eexists. reflexivity.
+  unfold class_field. intros H. apply bind_ok in H as [d [_ H]]. apply bind_ok in H as [id [_ H]].
+  apply Ok_inj in H. subst c. eexists. reflexivity.
 Qed.
 
 (* the literal of a doc attribute is the documentation text itself, trimmed *)
@@ -242,16 +242,24 @@ Qed.
 (* ================= C14: credentials ================= *)
 (* every request module calls `authenticate` exactly when the document declares security *)
 Theorem request_calls_authenticate h cfg o c : request_file h cfg o = Ok c ->
-  exists pre post sname output url method assigns,
-    c = pre ++ into_future_impl (has_security h) sname output url method assigns ++ post.
+  exists pre post sname output url assigns,
+    c = pre ++ into_future_impl (has_security h) sname output url (ts (o_method o)) assigns ++ post /\
+    make_url o = Ok url /\ print_plan (request_plan (o_params o)) = Ok assigns.
 Proof.
   unfold request_file. intros H.
-  repeat (apply bind_ok in H as [? [_ H]]).
+  apply bind_ok in H as [imports [_ H]]. apply bind_ok in H as [imports2 [_ H]]. apply bind_ok in H as [rstruct [_ H]].
+  apply bind_ok in H as [reqd [_ H]]. apply bind_ok in H as [sname [_ H]]. apply bind_ok in H as [response [_ H]].
+  apply bind_ok in H as [method [Hm H]]. apply bind_ok in H as [url [Hu H]]. apply bind_ok in H as [builders [_ H]].
+  apply bind_ok in H as [assigns [Ha H]]. apply bind_ok in H as [cm [_ H]]. apply bind_ok in H as [cid [_ H]].
+  apply bind_ok in H as [model_import [_ H]].
+  assert (Em : method = ts (o_method o)).
+  { unfold ident in Hm. destruct (ident_new_ok (o_method o)); [|discriminate]. apply Ok_inj in Hm. auto. }
+  subst method.
   match type of H with
   | Ok (?a ++ ?b ++ ?c0 ++ ?d ++ ?e ++ ?f ++ ?g ++ ?h0 ++ ?i ++ into_future_impl ?au ?sn ?ou ?ur ?me ?asg ++ ?post) = _ =>
-      exists (a ++ b ++ c0 ++ d ++ e ++ f ++ g ++ h0 ++ i), post, sn, ou, ur, me, asg
+      exists (a ++ b ++ c0 ++ d ++ e ++ f ++ g ++ h0 ++ i), post, sn, ou, ur, asg
   end.
-  apply Ok_inj in H. subst c. rewrite <- !app_assoc. reflexivity.
+  apply Ok_inj in H. subst c. split; [rewrite <- !app_assoc; reflexivity|]. split; [exact Hu|exact Ha].
 Qed.
 
 (* with security the request is passed through `authenticate` right before it is sent; without, nothing is inserted *)
